@@ -526,6 +526,66 @@ theorem gen_str_extend_strs (b : Bytes) (ts : List Bytes) :
   rw [h1]
   simp only [RsS.bind, finU, h2, text_full]
 
+
+/-! ### The other `Extend` impls and `clone_from` -/
+
+theorem bstrings_loop_eq (ts : List Bytes) : ∀ s, Gen.Fn.str_extend_bstrings.loop ts s = Gen.Fn.str_extend_strs.loop ts s := by
+  induction ts with
+  | nil => intro s; rfl
+  | cons t ts ih =>
+    intro s
+    unfold Gen.Fn.str_extend_bstrings.loop Gen.Fn.str_extend_strs.loop
+    congr 1; funext s' _; exact ih s'
+
+theorem strings_loop_eq (ts : List Bytes) : ∀ s, Gen.Fn.str_extend_strings.loop ts s = Gen.Fn.str_extend_strs.loop ts s := by
+  induction ts with
+  | nil => intro s; rfl
+  | cons t ts ih =>
+    intro s
+    unfold Gen.Fn.str_extend_strings.loop Gen.Fn.str_extend_strs.loop
+    congr 1; funext s' _; exact ih s'
+
+theorem cows_loop_eq (ts : List Bytes) : ∀ s, Gen.Fn.str_extend_cows.loop ts s = Gen.Fn.str_extend_strs.loop ts s := by
+  induction ts with
+  | nil => intro s; rfl
+  | cons t ts ih =>
+    intro s
+    unfold Gen.Fn.str_extend_cows.loop Gen.Fn.str_extend_strs.loop
+    congr 1; funext s' _; exact ih s'
+
+/-- `Extend<String<'bump>>`, `Extend<std String>`, `Extend<Cow<str>>`: each item's text appended in order, as `Extend<&str>` -/
+theorem gen_str_extend_bstrings (b : Bytes) (ts : List Bytes) :
+    finU (Gen.Fn.str_extend_bstrings ts (b, b.length)) = .ok (ts.foldl pushStr b) := by
+  rw [← gen_str_extend_strs]; unfold Gen.Fn.str_extend_bstrings Gen.Fn.str_extend_strs; rw [bstrings_loop_eq]
+
+theorem gen_str_extend_strings (b : Bytes) (ts : List Bytes) :
+    finU (Gen.Fn.str_extend_strings ts (b, b.length)) = .ok (ts.foldl pushStr b) := by
+  rw [← gen_str_extend_strs]; unfold Gen.Fn.str_extend_strings Gen.Fn.str_extend_strs; rw [strings_loop_eq]
+
+theorem gen_str_extend_cows (b : Bytes) (ts : List Bytes) :
+    finU (Gen.Fn.str_extend_cows ts (b, b.length)) = .ok (ts.foldl pushStr b) := by
+  rw [← gen_str_extend_strs]; unfold Gen.Fn.str_extend_cows Gen.Fn.str_extend_strs; rw [cows_loop_eq]
+
+/-- `Extend<&char>` is `Extend<char>` of the copied characters -/
+theorem gen_str_extend_char_refs (b : Bytes) (cs : List Char) (hint : Nat) :
+    finU (Gen.Fn.str_extend_char_refs cs hint (b, b.length)) = .ok (extendChars b cs) := by
+  rw [← gen_str_extend_chars b cs hint]
+  unfold Gen.Fn.str_extend_char_refs
+  rcases h : Gen.Fn.str_extend_chars cs hint (b, b.length) with ⟨s', o⟩
+  cases o <;> simp [RsS.bind, finU]
+
+/-- `String::clone_from`: afterwards the string is a copy of the source, whatever it held before (no panic, no
+char-boundary condition on the old contents) -/
+theorem gen_str_clone_from (src : Bytes) (s : SB) :
+    finU (Gen.Fn.str_clone_from src s) = .ok (clone src) := by
+  simp [Gen.Fn.str_clone_from, RsS.vec_clone_from, RsS.bind, finU, clone, text]
+
+#print axioms gen_str_extend_bstrings
+#print axioms gen_str_extend_strings
+#print axioms gen_str_extend_cows
+#print axioms gen_str_extend_char_refs
+#print axioms gen_str_clone_from
+
 /-- `String::from_iter_in`: a fresh string, then the characters pushed in order -/
 theorem gen_str_from_iter_in (cs : List Char) (s0 : SB) :
     finU (Gen.Fn.str_from_iter_in cs s0) = .ok (fromIter cs) := by
